@@ -51,6 +51,63 @@ func runC38(r *Report) {
 		return nil
 	}
 	current, reset := elemInt(0), elemInt(1)
+	if current == nil || reset == nil {
+		// the reply may be decoded by an unexported helper that is handed the script's result and
+		// returns the two integers
+		for _, cs := range Sites(fn, func(in ssa.Instruction) bool { _, ok := in.(*ssa.Call); return ok }) {
+			c := cs.Instr.(*ssa.Call)
+			h := c.Call.StaticCallee()
+			if h == nil || h.Blocks == nil || h.Pkg != fn.Pkg || isExportedName(h.Name()) || exec == nil {
+				continue
+			}
+			pi := -1
+			for k, a := range c.Call.Args {
+				if a == ssa.Value(exec) && k < len(h.Params) {
+					pi = k
+				}
+			}
+			if pi < 0 {
+				continue
+			}
+			inHelper := func(idx int64) ssa.Value {
+				for _, s := range CallSites(h, "rueidis.(*RedisMessage).ToInt64") {
+					if ia, ok := s.Call().Common().Args[0].(*ssa.IndexAddr); ok {
+						if k, isc := ConstInt(ia.Index); isc && k == idx {
+							if DependsOn(ia.X, func(v ssa.Value) bool { return v == ssa.Value(h.Params[pi]) }) {
+								return extractOf(s.Instr.(*ssa.Call), 0)
+							}
+						}
+					}
+				}
+				return nil
+			}
+			// result position of each element on the success return (error result nil)
+			pos := func(v ssa.Value) int {
+				if v == nil {
+					return -1
+				}
+				for _, b := range h.Blocks {
+					ret, isr := b.Instrs[len(b.Instrs)-1].(*ssa.Return)
+					if !isr || b.Comment == "recover" {
+						continue
+					}
+					rv := RetVals(ret)
+					if len(rv) == 0 || !IsNilConst(rv[len(rv)-1]) {
+						continue
+					}
+					for k, x := range rv {
+						if x == v {
+							return k
+						}
+					}
+				}
+				return -1
+			}
+			if p0, p1 := pos(inHelper(0)), pos(inHelper(1)); p0 >= 0 && p1 >= 0 {
+				current, reset = extractOf(c, p0), extractOf(c, p1)
+			}
+		}
+	}
 	if !r.Anchor("R38a", "AllowN: counter and reset time from the script reply", current != nil && reset != nil) {
 		return
 	}
@@ -140,6 +197,25 @@ func runC38(r *Report) {
 			if bo, isb := a.(*ssa.BinOp); isb && bo.Op == token.SUB && isLimit(bo.X) && bo.Y == current {
 				if k, isk := ConstInt(c.Call.Args[1-i]); isk && k == 0 {
 					okRem = true
+				}
+			}
+		}
+	}
+	// or the same clamp written out: r := limit - counter; if r < 0 { r = 0 }
+	if ph, isphi := remainingV.(*ssa.Phi); isphi && !okRem && len(ph.Edges) == 2 {
+		for i, e := range ph.Edges {
+			bo, isb := e.(*ssa.BinOp)
+			k, isk := ConstInt(ph.Edges[1-i])
+			if !isb || bo.Op != token.SUB || !isLimit(bo.X) || bo.Y != current || !isk || k != 0 {
+				continue
+			}
+			// the zero arrives over an edge on which the difference is negative
+			zp := ph.Block().Preds[1-i]
+			for _, g := range append(DomGuards(zp), edgeGuards(zp, ph.Block())...) {
+				if x, op, y, ok := CmpGuard(g); ok && x == ssa.Value(bo) && op == token.LSS {
+					if z, isz := ConstInt(y); isz && z == 0 {
+						okRem = true
+					}
 				}
 			}
 		}
